@@ -63,7 +63,8 @@ def make_oracle(facts, out):
             if A is None or A[0] != "tuple":
                 raise E.Unsupported("write_fmt with unmodelled arguments")
             tpl = it.tokname(A[1][0])
-            vals = it.resolve(A[1][1])[1] if len(A[1]) > 1 and it.resolve(A[1][1]) and it.resolve(A[1][1])[0] == "tuple" else []
+            rv = it.resolve(A[1][1]) if len(A[1]) > 1 else None
+            vals = rv[1] if rv and rv[0] == "tuple" else (rv[2] if rv and rv[0] == "seq" else [])
             if not tpl.startswith("const:b"):
                 raise E.Unsupported("format template %s" % tpl)
             raw = ast.literal_eval(tpl[len("const:"):])
